@@ -4,7 +4,7 @@
    and the palette size bounds 1 <= |palette| <= max(k, 8). *)
 From Coq Require Import List NArith ZArith Bool Lia Arith.
 From Coq Require Import ZifyBool ZifyNat ZifyN.
-From SNT Require Import Base.Outcome Image.KDTree Image.Octree Image.OctreePath.
+From SNT Require Import Base.Outcome Image.KDTree Image.Octree Image.OctreePath Gen.TabOctree.
 Import ListNotations.
 
 Arguments N.add : simpl never.
@@ -171,16 +171,100 @@ Proof.
   - exists x. split; [now left|lia].
 Qed.
 
+Lemma nsum_cons g x l : nsum g (x :: l) = (g x + nsum g l)%N.
+Proof. reflexivity. Qed.
+
+(* ---------- machine words: how large the accumulators can get ---------- *)
+
+(* a channel sum is at most 255 per counted colour *)
+Definition ratio (l : leaf) : Prop :=
+  (l_r l <= 255 * l_n l /\ l_g l <= 255 * l_n l /\ l_b l <= 255 * l_n l)%N.
+
+(* number of colours a node accounts for: its leaves and the `removed` accumulators *)
+Fixpoint mass (n : node) : N :=
+  match n with
+  | Empty => 0
+  | Leaf l => l_n l
+  | Tree _ rm ch => l_n rm + nsum mass ch
+  end.
+
+(* M colours can be accumulated in the declared types (Gen/TabOctree.v) *)
+Definition fits_bound (M : N) : Prop := (255 * M < leaf_acc_limit /\ M < leaf_count_limit)%N.
+
+(* ASSUMPTION of the C13/C12 theorems: an image has at most 2^56 pixels (2^58 bytes of RGBA,
+   beyond any allocation on the 64-bit targets).  The declared widths are adequate for it;
+   this lemma is re-checked against the regenerated widths on every run and fails for
+   accumulators narrower than 64 bits. *)
+Definition max_pixels : N := 72057594037927936.
+
+Lemma widths_adequate n : (n <= max_pixels)%N -> fits_bound n.
+Proof. unfold fits_bound, max_pixels, leaf_acc_limit, leaf_count_limit. lia. Qed.
+
+Lemma limits_are_powers :
+  leaf_acc_limit = (2 ^ leaf_acc_bits)%N /\ leaf_count_limit = (2 ^ leaf_count_bits)%N.
+Proof. split; vm_compute; reflexivity. Qed.
+
+Lemma machine_words :
+  (forall n, (n <= max_pixels)%N -> (255 * n < leaf_acc_limit /\ n < leaf_count_limit)%N) /\
+  leaf_acc_limit = (2 ^ leaf_acc_bits)%N /\ leaf_count_limit = (2 ^ leaf_count_bits)%N /\
+  (max_pixels < 2 ^ info_leaf_bits /\ max_pixels < 2 ^ info_color_bits /\ max_pixels < 2 ^ info_min_bits /\
+   max_pixels < 2 ^ leaf_index_bits)%N /\
+  (3 * 255 * 255 < 2 ^ kd_dist_bits)%N /\ (255 < 2 ^ kd_color_bits)%N /\
+  rnd_state_bits = 32%N /\ (16 <= color_error_significand_bits)%N.
+Proof.
+  split; [exact widths_adequate|]. split; [apply limits_are_powers|]. split; [apply limits_are_powers|].
+  split; [repeat split; vm_compute; reflexivity|]. split; [vm_compute; reflexivity|].
+  split; [vm_compute; reflexivity|]. split; [reflexivity|]. vm_compute. discriminate.
+Qed.
+
+Lemma fits_bound_mono a b : (a <= b)%N -> fits_bound b -> fits_bound a.
+Proof. unfold fits_bound. lia. Qed.
+
+Lemma ratio_fits l M : ratio l -> (l_n l <= M)%N -> fits_bound M -> leaf_fits l = true.
+Proof. unfold ratio, fits_bound, leaf_fits. lia. Qed.
+
+Lemma ratio_new : ratio leaf_new.
+Proof. unfold ratio. cbn. lia. Qed.
+
+Lemma ratio_of c : rgb_ok c = true -> ratio (leaf_of c).
+Proof. destruct c as [[r g] b]. unfold rgb_ok, ratio. cbn. lia. Qed.
+
+Lemma ratio_add l c : ratio l -> rgb_ok c = true -> ratio (leaf_add l c).
+Proof. destruct c as [[r g] b]. unfold rgb_ok, ratio. cbn. lia. Qed.
+
+Lemma ratio_join l m : ratio l -> ratio m -> ratio (leaf_join l m).
+Proof. unfold ratio. cbn. lia. Qed.
+
+Lemma leaf_add_n l c : l_n (leaf_add l c) = (l_n l + 1)%N.
+Proof. destruct c as [[r g] b]. reflexivity. Qed.
+
+Lemma leaf_add_chk_ok l c M :
+  ratio l -> rgb_ok c = true -> (l_n l + 1 <= M)%N -> fits_bound M ->
+  leaf_add_chk l c = Ok (leaf_add l c).
+Proof.
+  intros Hr Hc Hn Hf. unfold leaf_add_chk.
+  rewrite (ratio_fits _ M (ratio_add l c Hr Hc)); [reflexivity| |exact Hf]. rewrite leaf_add_n. exact Hn.
+Qed.
+
+Lemma leaf_join_chk_ok l m M :
+  ratio l -> ratio m -> (l_n l + l_n m <= M)%N -> fits_bound M ->
+  leaf_join_chk l m = Ok (leaf_join l m).
+Proof.
+  intros Hl Hm Hn Hf. unfold leaf_join_chk.
+  rewrite (ratio_fits _ M (ratio_join l m Hl Hm)); [reflexivity| |exact Hf]. cbn. exact Hn.
+Qed.
+
 (* h = number of path steps still to be taken when insertion arrives at this node *)
 Inductive wf_node : nat -> node -> Prop :=
 | wf_empty h : wf_node h Empty
-| wf_leaf h l : (1 <= l_n l)%N -> wf_node h (Leaf l)
+| wf_leaf h l : (1 <= l_n l)%N -> ratio l -> wf_node h (Leaf l)
 | wf_tree h i rm ch :
     length ch = 8%nat ->
     Forall (wf_node h) ch ->
     (1 <= lsum nleaves ch)%nat ->                         (* a tree never loses its last leaf *)
     (N.of_nat (lsum nleaves ch) <= i_leaves i)%N ->       (* the cache never under-counts *)
     i_min i <> None ->
+    ratio rm ->                                           (* also what was removed is a sum of bytes *)
     wf_node (S h) (Tree i rm ch).
 
 Lemma wf_info_bound h c : wf_node h c -> (N.of_nat (nleaves c) <= i_leaves (node_info c))%N.
@@ -195,9 +279,6 @@ Proof. destruct 1; intros Hne; [congruence|cbn; lia|cbn [nleaves]; assumption]. 
 Lemma nleaves_pos_nonempty c : (1 <= nleaves c)%nat -> c <> Empty.
 Proof. intros H ->. cbn in H. lia. Qed.
 
-Lemma nsum_cons g x l : nsum g (x :: l) = (g x + nsum g l)%N.
-Proof. reflexivity. Qed.
-
 Lemma nsum_le g h l : Forall (fun c => (g c <= h c)%N) l -> (nsum g l <= nsum h l)%N.
 Proof. induction 1; [cbn; lia|]. rewrite !nsum_cons. lia. Qed.
 
@@ -210,10 +291,10 @@ Proof.
 Qed.
 
 Lemma mk_tree_wf h rm ch :
-  length ch = 8%nat -> Forall (wf_node h) ch -> (1 <= lsum nleaves ch)%nat ->
+  length ch = 8%nat -> Forall (wf_node h) ch -> (1 <= lsum nleaves ch)%nat -> ratio rm ->
   wf_node (S h) (Tree (from_slice ch) rm ch).
 Proof.
-  intros Hlen Hall Hpos. constructor; try assumption.
+  intros Hlen Hall Hpos Hrm. constructor; try assumption.
   - rewrite from_slice_leaves. apply (nsum_bound h), Hall.
   - intros Hn. apply from_slice_min in Hn.
     destruct (lsum_pos_ex _ _ Hpos) as (c & Hc & Hg).
@@ -226,7 +307,7 @@ Proof.
   induction n as [| l | i rm ch IH] using node_ind'; intros h Hw; cbn [leaves_of].
   - constructor.
   - inversion Hw; subst. constructor; [assumption|constructor].
-  - inversion Hw as [| |h' ? ? ? Hlen Hall Hpos Hb Hm]; subst.
+  - inversion Hw as [| |h' ? ? ? Hlen Hall Hpos Hb Hm Hrm]; subst.
     apply Forall_forall. intros l Hl. apply in_flat_map in Hl. destruct Hl as (c & Hc & Hl).
     rewrite Forall_forall in IH, Hall. specialize (IH c Hc h' (Hall c Hc)).
     rewrite Forall_forall in IH. apply IH, Hl.
@@ -329,13 +410,14 @@ Lemma prune_rec_tree_eq i rm ch :
       match nth k ch Empty with
       | Empty => Panic 1373
       | Leaf l =>
-          if all_empty (set_at k Empty ch) then Ok (Leaf (leaf_join rm l))
-          else Ok (Tree i (leaf_join rm l) (set_at k Empty ch))
+          let* rm' := leaf_join_chk rm l in
+          if all_empty (set_at k Empty ch) then Ok (Leaf rm')
+          else Ok (Tree i rm' (set_at k Empty ch))
       | Tree _ _ _ =>
           let* ch1 := map_at_o prune_rec ch k in
           match nth k ch1 Empty with
           | Leaf l =>
-              if all_empty (set_at k Empty ch) then Ok (Leaf (leaf_join rm l))
+              if all_empty (set_at k Empty ch) then (let* rm' := leaf_join_chk rm l in Ok (Leaf rm'))
               else Ok (Tree (from_slice ch1) rm ch1)
           | _ => Ok (Tree (from_slice ch1) rm ch1)
           end
@@ -345,36 +427,74 @@ Proof. reflexivity. Qed.
 
 Definition is_tree (n : node) : bool := match n with Tree _ _ _ => true | _ => false end.
 
-(* pruning a well-formed subtree never reaches the unreachable!() arm, keeps it well formed
-   and non-empty, and strictly decreases the measure *)
-Lemma prune_rec_wf n : forall h,
-  wf_node h n -> is_tree n = true ->
-  exists n', prune_rec n = Ok n' /\ wf_node h n' /\ n' <> Empty /\
-             (node_measure n' < node_measure n)%nat.
+Lemma mass_tree i rm ch : mass (Tree i rm ch) = (l_n rm + nsum mass ch)%N.
+Proof. reflexivity. Qed.
+
+Lemma map_at_nsum g f l k :
+  (k < length l)%nat ->
+  (nsum g (map_at f l k) + g (nth k l Empty) = nsum g l + g (f (nth k l Empty)))%N.
 Proof.
-  induction n as [| l | i rm ch IH] using node_ind'; intros h Hw Ht; try discriminate. clear Ht.
-  inversion Hw as [| |h' ? ? ? Hlen Hall Hpos Hb Hm]; subst.
-  rewrite prune_rec_tree_eq, node_measure_tree.
+  revert k. induction l as [|x r IH]; intros [|k] H; cbn [length] in H; try lia.
+  - cbn [map_at nth]. rewrite !nsum_cons. lia.
+  - cbn [map_at nth]. rewrite !nsum_cons. specialize (IH k ltac:(lia)). lia.
+Qed.
+
+Lemma nsum_nth_le g l k : (g (nth k l Empty) <= nsum g l + g Empty)%N.
+Proof.
+  revert k. induction l as [|x r IH]; intros [|k]; cbn [nth]; rewrite ?nsum_cons; try lia.
+  specialize (IH k). lia.
+Qed.
+
+Lemma all_empty_mass l : all_empty l = true -> nsum mass l = 0%N.
+Proof.
+  unfold all_empty. induction l as [|x r IH]; [reflexivity|]. cbn [forallb]. intros H.
+  apply andb_true_iff in H. destruct H as [Hx Hr]. destruct x; try discriminate.
+  rewrite nsum_cons, (IH Hr). reflexivity.
+Qed.
+
+Lemma wf_leaf_mass h l : wf_node h (Leaf l) -> (1 <= l_n l)%N /\ ratio l.
+Proof. intros H. inversion H; subst. split; assumption. Qed.
+
+(* pruning a well-formed subtree never reaches the unreachable!() arm nor overflows an
+   accumulator, keeps it well formed and non-empty, keeps its mass, and strictly decreases
+   the measure *)
+Lemma prune_rec_wf n : forall h,
+  wf_node h n -> is_tree n = true -> fits_bound (mass n) ->
+  exists n', prune_rec n = Ok n' /\ wf_node h n' /\ n' <> Empty /\
+             (node_measure n' < node_measure n)%nat /\ mass n' = mass n.
+Proof.
+  induction n as [| l | i rm ch IH] using node_ind'; intros h Hw Ht Hfit; try discriminate. clear Ht.
+  inversion Hw as [| |h' ? ? ? Hlen Hall Hpos Hb Hm Hrm]; subst.
+  rewrite prune_rec_tree_eq, node_measure_tree. rewrite mass_tree in Hfit |- *.
   destruct (argmin_wf _ _ Hall Hpos) as (k & -> & Hk & Hne).
   pose proof (nth_Forall _ ch k Hall (wf_empty h')) as Hwc.
+  pose proof (nsum_nth_le mass ch k) as Hmk. cbn [mass] in Hmk.
   destruct (nth k ch Empty) as [| l | ci crm cch] eqn:Ec; [congruence| |].
   - (* the least populated child is a leaf: it moves into `removed`, info stays *)
-    inversion Hwc; subst.
+    destruct (wf_leaf_mass _ _ Hwc) as [Hl1 Hlr]. cbn [mass] in Hmk.
     pose proof (map_at_sum nleaves (fun _ => Empty) ch k Hk) as Sl.
     pose proof (map_at_sum node_measure (fun _ => Empty) ch k Hk) as Sm.
-    rewrite Ec in Sl, Sm. cbn [nleaves node_measure] in Sl, Sm.
-    fold (set_at k Empty ch) in Sl, Sm.
+    pose proof (map_at_nsum mass (fun _ => Empty) ch k Hk) as Sw.
+    rewrite Ec in Sl, Sm, Sw. cbn [nleaves node_measure mass] in Sl, Sm, Sw.
+    fold (set_at k Empty ch) in Sl, Sm, Sw.
+    rewrite (leaf_join_chk_ok rm l (l_n rm + nsum mass ch) Hrm Hlr ltac:(lia) Hfit). cbn [bind].
     destruct (all_empty (set_at k Empty ch)) eqn:Ea; eexists; (split; [reflexivity|]).
-    + split; [constructor; cbn; lia|]. split; [discriminate|]. cbn [node_measure]. lia.
+    + pose proof (all_empty_mass _ Ea) as Hz.
+      split; [constructor; [cbn; lia|apply ratio_join; assumption]|]. split; [discriminate|].
+      split; [cbn [node_measure]; lia|]. cbn [mass leaf_join l_n]. lia.
     + assert (Hall' : Forall (wf_node h') (set_at k Empty ch)) by (apply map_at_Forall; [exact Hall|constructor]).
-      split; [|split; [discriminate|rewrite node_measure_tree; lia]].
-      constructor; try assumption.
-      * now rewrite set_at_length.
-      * apply (nonempty_lsum_pos h'); [exact Hall'|apply all_empty_false, Ea].
-      * lia.
+      split; [|split; [discriminate|split; [rewrite node_measure_tree; lia|]]].
+      * constructor; try assumption.
+        -- now rewrite set_at_length.
+        -- apply (nonempty_lsum_pos h'); [exact Hall'|apply all_empty_false, Ea].
+        -- lia.
+        -- apply ratio_join; assumption.
+      * rewrite mass_tree. cbn [leaf_join l_n]. lia.
   - (* a subtree: prune it, collapse if it became the only (leaf) child *)
     assert (Hin : In (Tree ci crm cch) ch) by (rewrite <- Ec; apply nth_In, Hk).
-    rewrite Forall_forall in IH. destruct (IH _ Hin h' Hwc eq_refl) as (c' & Hpc & Hw' & Hne' & Hlt).
+    rewrite Forall_forall in IH.
+    assert (Hfc : fits_bound (mass (Tree ci crm cch))) by (eapply fits_bound_mono; [|exact Hfit]; lia).
+    destruct (IH _ Hin h' Hwc eq_refl Hfc) as (c' & Hpc & Hw' & Hne' & Hlt & Hmc).
     rewrite (map_at_o_ok prune_rec ch k c' Hk) by (rewrite Ec; exact Hpc). cbn [bind].
     set (ch1 := set_at k c' ch).
     assert (Hn1 : nth k ch1 Empty = c') by (unfold ch1; apply set_at_nth_same, Hk).
@@ -386,14 +506,20 @@ Proof.
       - rewrite Hn1. exact Hne'. }
     pose proof (map_at_sum node_measure (fun _ => c') ch k Hk) as Sm. fold (set_at k c' ch) in Sm. fold ch1 in Sm.
     rewrite Ec in Sm. cbv beta in Sm.
+    pose proof (map_at_nsum mass (fun _ => c') ch k Hk) as Sw. fold (set_at k c' ch) in Sw. fold ch1 in Sw.
+    rewrite Ec in Sw. cbv beta in Sw.
     assert (Hgen : exists n', Ok (Tree (from_slice ch1) rm ch1) = Ok n' /\ wf_node (S h') n' /\ n' <> Empty /\
-                   (node_measure n' < 2 + lsum node_measure ch)%nat).
+                   (node_measure n' < 2 + lsum node_measure ch)%nat /\ mass n' = (l_n rm + nsum mass ch)%N).
     { eexists. split; [reflexivity|]. split; [apply mk_tree_wf; assumption|]. split; [discriminate|].
-      rewrite node_measure_tree. lia. }
+      split; [rewrite node_measure_tree; lia|]. rewrite mass_tree. lia. }
     rewrite Hn1. destruct c' as [| l' | ? ? ?]; try exact Hgen.
-    destruct (all_empty (set_at k Empty ch)); [|exact Hgen].
-    inversion Hw'; subst. eexists. split; [reflexivity|]. split; [constructor; cbn; lia|].
-    split; [discriminate|]. cbn [node_measure]. lia.
+    destruct (all_empty (set_at k Empty ch)) eqn:Ea; [|exact Hgen].
+    destruct (wf_leaf_mass _ _ Hw') as [Hl1 Hlr]. cbn [mass] in Hmc.
+    pose proof (map_at_nsum mass (fun _ => Empty) ch k Hk) as Sz. fold (set_at k Empty ch) in Sz.
+    rewrite Ec, (all_empty_mass _ Ea) in Sz. cbv beta in Sz. cbn [mass] in Sz.
+    rewrite (leaf_join_chk_ok rm l' (l_n rm + nsum mass ch) Hrm Hlr ltac:(lia) Hfit). cbn [bind].
+    eexists. split; [reflexivity|]. split; [constructor; [cbn; lia|apply ratio_join; assumption]|].
+    split; [discriminate|]. split; [cbn [node_measure]; lia|]. cbn [mass leaf_join l_n]. lia.
 Qed.
 
 (* ---------- the root ---------- *)
@@ -406,7 +532,10 @@ Record wf_oc (t : octree) : Prop := mkWfOc {
   wo_bound : (N.of_nat (lsum nleaves (o_children t)) <= i_leaves (o_info t))%N;
   (* the root's own cache is recomputed less often than it should be; what survives is
      that it never exceeds one per slot plus the caches of the subtree children *)
-  wo_slots : (i_leaves (o_info t) <= nsum uval (o_children t))%N }.
+  wo_slots : (i_leaves (o_info t) <= nsum uval (o_children t))%N;
+  wo_removed : ratio (o_removed t) }.
+
+Definition oc_mass (t : octree) : N := (l_n (o_removed t) + nsum mass (o_children t))%N.
 
 Lemma nsum_uval_no_tree l :
   Forall (fun c => is_tree c = false) l -> nsum uval l = N.of_nat (length l).
@@ -427,15 +556,6 @@ Proof.
     rewrite (nsum_uval_no_tree _ H0), Hlen in Hs. lia.
 Qed.
 
-Lemma map_at_nsum g f l k :
-  (k < length l)%nat ->
-  (nsum g (map_at f l k) + g (nth k l Empty) = nsum g l + g (f (nth k l Empty)))%N.
-Proof.
-  revert k. induction l as [|x r IH]; intros [|k] H; cbn [length] in H; try lia.
-  - cbn [map_at nth]. rewrite !nsum_cons. lia.
-  - cbn [map_at nth]. rewrite !nsum_cons. specialize (IH k ltac:(lia)). lia.
-Qed.
-
 Lemma from_slice_slots ch : (i_leaves (from_slice ch) <= nsum uval ch)%N.
 Proof.
   rewrite from_slice_leaves. apply nsum_le. apply Forall_forall. intros c _. destruct c; cbn; lia.
@@ -445,29 +565,34 @@ Lemma oc_measure_eq t : oc_measure t = lsum node_measure (o_children t).
 Proof. reflexivity. Qed.
 
 Lemma oc_prune_wf t :
-  wf_oc t -> (exists c, In c (o_children t) /\ is_tree c = true) ->
+  wf_oc t -> (exists c, In c (o_children t) /\ is_tree c = true) -> fits_bound (oc_mass t) ->
   exists t', oc_prune t = Ok t' /\
   wf_oc t' /\ (oc_measure t' < oc_measure t)%nat /\
-  (1 <= lsum nleaves (o_children t'))%nat.
+  (1 <= lsum nleaves (o_children t'))%nat /\ oc_mass t' = oc_mass t.
 Proof.
-  intros [Hlen Hall Hb Hs] (ct & Hct & Htree).
+  intros [Hlen Hall Hb Hs Hrm] (ct & Hct & Htree) Hfit. unfold oc_mass in *.
   assert (Hpos : (1 <= lsum nleaves (o_children t))%nat).
   { apply (nonempty_lsum_pos 7); [exact Hall|]. exists ct. split; [exact Hct|]. destruct ct; discriminate. }
   unfold oc_prune. rewrite !oc_measure_eq.
   destruct (argmin_wf _ _ Hall Hpos) as (k & -> & Hk & Hne).
   pose proof (nth_Forall _ (o_children t) k Hall (wf_empty 7)) as Hwc.
+  pose proof (nsum_nth_le mass (o_children t) k) as Hmk. cbn [mass] in Hmk.
   destruct (nth k (o_children t) Empty) as [| l | ci crm cch] eqn:Ec; [congruence| |].
   - (* a leaf directly under the root is dropped; the root's info is not refreshed *)
+    destruct (wf_leaf_mass _ _ Hwc) as [Hl1 Hlr]. cbn [mass] in Hmk.
     pose proof (map_at_sum nleaves (fun _ => Empty) (o_children t) k Hk) as Sl.
     pose proof (map_at_sum node_measure (fun _ => Empty) (o_children t) k Hk) as Sm.
     pose proof (map_at_nsum uval (fun _ => Empty) (o_children t) k Hk) as Su.
-    rewrite Ec in Sl, Sm, Su. cbn [nleaves node_measure uval] in Sl, Sm, Su.
-    fold (set_at k Empty (o_children t)) in Sl, Sm, Su.
-    eexists. split; [reflexivity|]. rewrite oc_measure_eq. cbn [o_children o_info].
+    pose proof (map_at_nsum mass (fun _ => Empty) (o_children t) k Hk) as Sw.
+    rewrite Ec in Sl, Sm, Su, Sw. cbn [nleaves node_measure uval mass] in Sl, Sm, Su, Sw.
+    fold (set_at k Empty (o_children t)) in Sl, Sm, Su, Sw.
+    rewrite (leaf_join_chk_ok (o_removed t) l (l_n (o_removed t) + nsum mass (o_children t)) Hrm Hlr ltac:(lia) Hfit). cbn [bind].
+    eexists. split; [reflexivity|]. rewrite oc_measure_eq. cbn [o_children o_info o_removed].
     assert (Hall' : Forall (wf_node 7) (set_at k Empty (o_children t)))
       by (apply map_at_Forall; [exact Hall|constructor]).
-    split; [constructor; cbn [o_children o_info]; try assumption; try lia; now rewrite set_at_length|].
-    split; [lia|].
+    split; [constructor; cbn [o_children o_info o_removed]; try assumption; try lia;
+            [now rewrite set_at_length|apply ratio_join; assumption]|].
+    split; [lia|]. split; [|cbn [leaf_join l_n]; lia].
     (* the subtree child is still there *)
     destruct (In_nth _ _ Empty Hct) as (j & Hj & Hjn).
     assert (j <> k) by (intros ->; rewrite Ec in Hjn; subst ct; discriminate).
@@ -475,9 +600,10 @@ Proof.
     { rewrite <- Hjn. rewrite <- (map_at_nth_other (fun _ => Empty) _ k j H).
       apply nth_In. unfold set_at in *. rewrite map_at_length. exact Hj. }
     apply (nonempty_lsum_pos 7); [exact Hall'|]. exists ct. split; [assumption|destruct ct; discriminate].
-  - destruct (prune_rec_wf _ 7 Hwc eq_refl) as (c' & Hpc & Hw' & Hne' & Hlt).
+  - assert (Hfc : fits_bound (mass (Tree ci crm cch))) by (eapply fits_bound_mono; [|exact Hfit]; lia).
+    destruct (prune_rec_wf _ 7 Hwc eq_refl Hfc) as (c' & Hpc & Hw' & Hne' & Hlt & Hmc).
     rewrite (map_at_o_ok prune_rec (o_children t) k c' Hk) by (rewrite Ec; exact Hpc). cbn [bind].
-    eexists. split; [reflexivity|]. rewrite oc_measure_eq. cbn [o_children o_info].
+    eexists. split; [reflexivity|]. rewrite oc_measure_eq. cbn [o_children o_info o_removed].
     set (ch1 := set_at k c' (o_children t)).
     assert (Hn1 : nth k ch1 Empty = c') by (unfold ch1; apply set_at_nth_same, Hk).
     assert (Hall1 : Forall (wf_node 7) ch1) by (apply map_at_Forall; [exact Hall|exact Hw']).
@@ -488,8 +614,10 @@ Proof.
       - rewrite Hn1. exact Hne'. }
     pose proof (map_at_sum node_measure (fun _ => c') (o_children t) k Hk) as Sm.
     fold (set_at k c' (o_children t)) in Sm. fold ch1 in Sm. rewrite Ec in Sm. cbv beta in Sm.
-    split; [|split; [lia|exact Hpos1]].
-    constructor; cbn [o_children o_info]; try assumption.
+    pose proof (map_at_nsum mass (fun _ => c') (o_children t) k Hk) as Sw.
+    fold (set_at k c' (o_children t)) in Sw. fold ch1 in Sw. rewrite Ec in Sw. cbv beta in Sw.
+    split; [|split; [lia|split; [exact Hpos1|lia]]].
+    constructor; cbn [o_children o_info o_removed]; try assumption.
     + rewrite from_slice_leaves. apply (nsum_bound 7), Hall1.
     + apply from_slice_slots.
 Qed.
@@ -497,12 +625,12 @@ Qed.
 (* ---------- prune_until: termination and the upper bound ---------- *)
 
 Lemma prune_until_fuel_spec fuel : forall k t,
-  wf_oc t -> (oc_measure t <= fuel)%nat ->
+  wf_oc t -> (oc_measure t <= fuel)%nat -> fits_bound (oc_mass t) ->
   exists t', prune_until_fuel fuel k t = Ok t' /\ wf_oc t' /\
              (i_leaves (o_info t') <= N.max k 8)%N /\
              ((1 <= lsum nleaves (o_children t))%nat -> (1 <= lsum nleaves (o_children t'))%nat).
 Proof.
-  induction fuel as [|f IH]; intros k t Hw Hm.
+  induction fuel as [|f IH]; intros k t Hw Hm Hfit.
   - cbn [prune_until_fuel]. destruct (i_leaves (o_info t) <=? N.max k 8)%N eqn:E.
     + exists t. split; [reflexivity|]. split; [exact Hw|]. split; [lia|]. intros H; exact H.
     + exfalso. destruct (has_tree_child t Hw) as (c & Hc & Ht); [lia|].
@@ -511,17 +639,17 @@ Proof.
   - cbn [prune_until_fuel]. destruct (i_leaves (o_info t) <=? N.max k 8)%N eqn:E.
     + exists t. split; [reflexivity|]. split; [exact Hw|]. split; [lia|]. intros H; exact H.
     + destruct (has_tree_child t Hw) as (c & Hc & Ht); [lia|].
-      destruct (oc_prune_wf t Hw) as (t1 & -> & Hw' & Hlt & Hpos'); [eauto|]. cbn [bind].
-      destruct (IH k t1 Hw') as (t' & Ht' & Hwt' & Hbt' & Hp'); [lia|].
+      destruct (oc_prune_wf t Hw) as (t1 & -> & Hw' & Hlt & Hpos' & Hm1); [eauto|exact Hfit|]. cbn [bind].
+      destruct (IH k t1 Hw') as (t' & Ht' & Hwt' & Hbt' & Hp'); [lia|rewrite Hm1; exact Hfit|].
       exists t'. split; [exact Ht'|]. split; [exact Hwt'|]. split; [exact Hbt'|]. intros _. apply Hp', Hpos'.
 Qed.
 
 Theorem prune_until_terminates k t :
-  wf_oc t ->
+  wf_oc t -> fits_bound (oc_mass t) ->
   exists t', prune_until k t = Ok t' /\ wf_oc t' /\
              (i_leaves (o_info t') <= N.max k 8)%N /\
              ((1 <= lsum nleaves (o_children t))%nat -> (1 <= lsum nleaves (o_children t'))%nat).
-Proof. intros Hw. unfold prune_until. apply prune_until_fuel_spec; [exact Hw|lia]. Qed.
+Proof. intros Hw Hf. unfold prune_until. apply prune_until_fuel_spec; [exact Hw|lia|exact Hf]. Qed.
 
 (* ---------- insert ---------- *)
 
@@ -551,17 +679,23 @@ Proof. repeat constructor. Qed.
 
 Lemma insert_rec_wf path : forall c n h,
   length path = h -> Forall (fun k => (k < 8)%nat) path -> wf_node h n ->
+  rgb_ok c = true -> fits_bound (mass n + 1) ->
   exists n', insert_rec path c n = Ok n' /\ wf_node h n' /\ n' <> Empty /\
-             (nleaves n <= nleaves n')%nat.
+             (nleaves n <= nleaves n')%nat /\ mass n' = (mass n + 1)%N.
 Proof.
-  induction path as [|k rest IH]; intros c n h Hlen Hp Hw.
-  - cbn in Hlen. subst h. cbn [insert_rec]. inversion Hw; subst.
-    + eexists. split; [reflexivity|]. split; [constructor; destruct c as [[? ?] ?]; cbn; lia|]. split; [discriminate|cbn; lia].
-    + eexists. split; [reflexivity|]. split; [constructor; destruct c as [[? ?] ?]; cbn; lia|]. split; [discriminate|cbn; lia].
+  induction path as [|k rest IH]; intros c n h Hlen Hp Hw Hc Hfit.
+  - cbn in Hlen. subst h. cbn [insert_rec]. inversion Hw as [| ? l Hl1 Hlr |]; subst.
+    + eexists. split; [reflexivity|].
+      split; [constructor; [destruct c as [[? ?] ?]; cbn; lia|apply ratio_of, Hc]|].
+      split; [discriminate|]. split; [cbn; lia|]. destruct c as [[? ?] ?]; reflexivity.
+    + cbn [mass] in Hfit. rewrite (leaf_add_chk_ok l c (l_n l + 1) Hlr Hc ltac:(lia) Hfit). cbn [bind].
+      eexists. split; [reflexivity|].
+      split; [constructor; [rewrite leaf_add_n; lia|apply ratio_add; assumption]|].
+      split; [discriminate|]. split; [cbn; lia|]. cbn [mass]. apply leaf_add_n.
   - cbn [length] in Hlen. destruct h as [|h]; [discriminate|]. injection Hlen as Hlen.
     inversion Hp as [|? ? Hk Hrest]; subst. cbn [insert_rec].
-    inversion Hw as [| |h' i rm ch Hl Hall Hpos Hb Hm]; subst.
-    + destruct (IH c Empty (length rest) eq_refl Hrest (wf_empty _)) as (n' & -> & Hw' & Hne' & _).
+    inversion Hw as [| ? l Hl1 Hlr |h' i rm ch Hl Hall Hpos Hb Hm Hrm]; subst.
+    + destruct (IH c Empty (length rest) eq_refl Hrest (wf_empty _) Hc Hfit) as (n' & -> & Hw' & Hne' & _ & Hm').
       cbn [bind]. eexists. split; [reflexivity|].
       assert (Hk8 : (k < length empty8)%nat) by (cbn; lia).
       assert (Hall' : Forall (wf_node (length rest)) (set_at k n' empty8))
@@ -571,62 +705,84 @@ Proof.
         replace n' with (nth k (set_at k n' empty8) Empty) at 1
           by (unfold set_at; now rewrite map_at_nth_same).
         apply nth_In. now rewrite set_at_length. }
-      split; [apply mk_tree_wf; try assumption; now rewrite set_at_length|].
-      split; [discriminate|cbn [nleaves]; lia].
-    + eexists. split; [reflexivity|]. split; [constructor; destruct c as [[? ?] ?]; cbn; lia|]. split; [discriminate|cbn; lia].
+      pose proof (map_at_nsum mass (fun _ => n') empty8 k Hk8) as Sw. fold (set_at k n' empty8) in Sw. cbv beta in Sw.
+      replace (nth k empty8 Empty) with Empty in Sw
+        by (do 8 (destruct k as [|k]; [reflexivity|]); cbn in Hk8; lia).
+      replace (nsum mass empty8) with 0%N in Sw by reflexivity. cbn [mass] in Sw, Hm'.
+      split; [apply mk_tree_wf; try assumption; [now rewrite set_at_length|apply ratio_new]|].
+      split; [discriminate|]. split; [cbn [nleaves]; lia|]. rewrite mass_tree. cbn [mass leaf_new l_n]. lia.
+    + cbn [mass] in Hfit. rewrite (leaf_add_chk_ok l c (l_n l + 1) Hlr Hc ltac:(lia) Hfit). cbn [bind].
+      eexists. split; [reflexivity|].
+      split; [constructor; [rewrite leaf_add_n; lia|apply ratio_add; assumption]|].
+      split; [discriminate|]. split; [cbn; lia|]. cbn [mass]. apply leaf_add_n.
     + pose proof (nth_Forall _ ch k Hall (wf_empty _)) as Hwc.
-      destruct (IH c (nth k ch Empty) (length rest) eq_refl Hrest Hwc) as (n' & -> & Hw' & Hne' & Hle).
+      pose proof (nsum_nth_le mass ch k) as Hmk. cbn [mass] in Hmk. rewrite mass_tree in Hfit.
+      assert (Hfc : fits_bound (mass (nth k ch Empty) + 1)) by (eapply fits_bound_mono; [|exact Hfit]; lia).
+      destruct (IH c (nth k ch Empty) (length rest) eq_refl Hrest Hwc Hc Hfc) as (n' & -> & Hw' & Hne' & Hle & Hm').
       cbn [bind]. eexists. split; [reflexivity|].
       assert (Hk8 : (k < length ch)%nat) by lia.
       assert (Hall' : Forall (wf_node (length rest)) (set_at k n' ch))
         by (apply map_at_Forall; [exact Hall|exact Hw']).
       pose proof (map_at_sum nleaves (fun _ => n') ch k Hk8) as Sl. fold (set_at k n' ch) in Sl. cbv beta in Sl.
+      pose proof (map_at_nsum mass (fun _ => n') ch k Hk8) as Sw. fold (set_at k n' ch) in Sw. cbv beta in Sw.
       split; [apply mk_tree_wf; try assumption; [now rewrite set_at_length|lia]|].
-      split; [discriminate|cbn [nleaves]; lia].
+      split; [discriminate|]. split; [cbn [nleaves]; lia|]. rewrite !mass_tree. lia.
 Qed.
 
 Lemma oc_new_wf : wf_oc oc_new.
-Proof. constructor; cbn; try lia. apply empty8_wf. Qed.
+Proof. constructor; cbn; try lia; [apply empty8_wf|apply ratio_new]. Qed.
+
+Lemma oc_new_mass : oc_mass oc_new = 0%N.
+Proof. reflexivity. Qed.
 
 Lemma oc_insert_wf t c :
-  wf_oc t -> rgb_ok c = true ->
+  wf_oc t -> rgb_ok c = true -> fits_bound (oc_mass t + 1) ->
   exists t', oc_insert t c = Ok t' /\ wf_oc t' /\
              (1 <= lsum nleaves (o_children t'))%nat /\
-             (lsum nleaves (o_children t) <= lsum nleaves (o_children t'))%nat.
+             (lsum nleaves (o_children t) <= lsum nleaves (o_children t'))%nat /\
+             oc_mass t' = (oc_mass t + 1)%N.
 Proof.
-  intros [Hlen Hall Hb Hs] Hc. unfold oc_insert. rewrite (path_packed_eq c Hc). unfold path_of.
+  intros [Hlen Hall Hb Hs Hrm] Hc Hfit. unfold oc_mass in *.
+  unfold oc_insert. rewrite (path_packed_eq c Hc). unfold path_of.
   destruct (path_n_ok 8 c Hc) as [Hl Hf].
   destruct (path_n 8 c) as [|k rest]; [discriminate|].
   inversion Hf as [|? ? Hk Hrest]; subst. cbn [length] in Hl. injection Hl as Hl.
   pose proof (nth_Forall _ (o_children t) k Hall (wf_empty _)) as Hwc.
-  destruct (insert_rec_wf rest c (nth k (o_children t) Empty) 7 Hl Hrest Hwc) as (n' & -> & Hw' & Hne' & Hle).
+  pose proof (nsum_nth_le mass (o_children t) k) as Hmk. cbn [mass] in Hmk.
+  assert (Hfc : fits_bound (mass (nth k (o_children t) Empty) + 1)) by (eapply fits_bound_mono; [|exact Hfit]; lia).
+  destruct (insert_rec_wf rest c (nth k (o_children t) Empty) 7 Hl Hrest Hwc Hc Hfc) as (n' & -> & Hw' & Hne' & Hle & Hm').
   cbn [bind]. eexists. split; [reflexivity|].
   assert (Hk8 : (k < length (o_children t))%nat) by lia.
   assert (Hall' : Forall (wf_node 7) (set_at k n' (o_children t)))
     by (apply map_at_Forall; [exact Hall|exact Hw']).
   pose proof (map_at_sum nleaves (fun _ => n') (o_children t) k Hk8) as Sl.
   fold (set_at k n' (o_children t)) in Sl. cbv beta in Sl.
+  pose proof (map_at_nsum mass (fun _ => n') (o_children t) k Hk8) as Sw.
+  fold (set_at k n' (o_children t)) in Sw. cbv beta in Sw.
   pose proof (wf_nonempty_leaves _ _ Hw' Hne').
   pose proof (lsum_nth_le nleaves (o_children t) k) as Hnl. cbn [nleaves] in Hnl.
-  split; [|cbn [o_children]; unfold set_at in *; lia].
-  constructor; cbn [o_children o_info]; try assumption.
+  split; [|cbn [o_children o_removed]; unfold set_at in *; lia].
+  constructor; cbn [o_children o_info o_removed]; try assumption.
   - now rewrite set_at_length.
   - rewrite from_slice_leaves. apply (nsum_bound 7), Hall'.
   - apply from_slice_slots.
 Qed.
 
 Lemma oc_extend_wf cs : forall t,
-  wf_oc t -> Forall (fun c => rgb_ok c = true) cs ->
+  wf_oc t -> Forall (fun c => rgb_ok c = true) cs -> fits_bound (oc_mass t + N.of_nat (length cs)) ->
   exists t', oc_extend t cs = Ok t' /\ wf_oc t' /\
              (lsum nleaves (o_children t) <= lsum nleaves (o_children t'))%nat /\
-             (cs <> [] -> (1 <= lsum nleaves (o_children t'))%nat).
+             (cs <> [] -> (1 <= lsum nleaves (o_children t'))%nat) /\
+             oc_mass t' = (oc_mass t + N.of_nat (length cs))%N.
 Proof.
-  induction cs as [|c r IH]; intros t Hw Hok.
-  - exists t. cbn [oc_extend]. split; [reflexivity|]. split; [exact Hw|]. split; [lia|]. congruence.
-  - inversion Hok as [|? ? Hc Hr]; subst. cbn [oc_extend].
-    destruct (oc_insert_wf t c Hw Hc) as (t1 & -> & Hw1 & Hp1 & Hle1). cbn [bind].
-    destruct (IH t1 Hw1 Hr) as (t' & -> & Hw' & Hle' & _).
-    exists t'. split; [reflexivity|]. split; [exact Hw'|]. split; [lia|]. intros _. lia.
+  induction cs as [|c r IH]; intros t Hw Hok Hfit.
+  - exists t. cbn [oc_extend length]. split; [reflexivity|]. split; [exact Hw|]. split; [lia|]. split; [congruence|lia].
+  - inversion Hok as [|? ? Hc Hr]; subst. cbn [oc_extend]. cbn [length] in Hfit.
+    assert (Hf1 : fits_bound (oc_mass t + 1)) by (eapply fits_bound_mono; [|exact Hfit]; lia).
+    destruct (oc_insert_wf t c Hw Hc Hf1) as (t1 & -> & Hw1 & Hp1 & Hle1 & Hm1). cbn [bind].
+    assert (Hf2 : fits_bound (oc_mass t1 + N.of_nat (length r))) by (eapply fits_bound_mono; [|exact Hfit]; lia).
+    destruct (IH t1 Hw1 Hr Hf2) as (t' & -> & Hw' & Hle' & _ & Hm').
+    exists t'. split; [reflexivity|]. split; [exact Hw'|]. split; [lia|]. split; [intros _; lia|]. cbn [length]. lia.
 Qed.
 
 (* ---------- build_palette ---------- *)
@@ -642,7 +798,7 @@ Qed.
 Lemma build_palette_ok t :
   wf_oc t -> exists pal, build_palette t = Ok pal /\ length pal = lsum nleaves (o_children t).
 Proof.
-  intros [Hlen Hall Hb Hs]. unfold build_palette.
+  intros [Hlen Hall Hb Hs Hrm]. unfold build_palette.
   destruct (map_outcome_ok leaf_rgb (oc_leaves t)) as (ys & Hys & Hl).
   - unfold oc_leaves. apply Forall_forall. intros l Hl. apply in_flat_map in Hl.
     destruct Hl as (c & Hc & Hl). rewrite Forall_forall in Hall.
@@ -654,14 +810,16 @@ Qed.
 (* ---------- the palette theorem ---------- *)
 
 Theorem palette_bounds : forall (cs : list rgb) (k : N),
-  cs <> [] -> Forall (fun c => rgb_ok c = true) cs ->
+  cs <> [] -> Forall (fun c => rgb_ok c = true) cs -> (N.of_nat (length cs) <= max_pixels)%N ->
   exists t t' pal,
     oc_extend oc_new cs = Ok t /\ prune_until k t = Ok t' /\ build_palette t' = Ok pal /\
     (1 <= length pal)%nat /\ (N.of_nat (length pal) <= N.max k 8)%N.
 Proof.
-  intros cs k Hne Hok.
-  destruct (oc_extend_wf cs oc_new oc_new_wf Hok) as (t & Ht & Hw & _ & Hpos). specialize (Hpos Hne).
-  destruct (prune_until_terminates k t Hw) as (t' & Ht' & Hw' & Hb' & Hp'). specialize (Hp' Hpos).
+  intros cs k Hne Hok Hmax. pose proof (widths_adequate _ Hmax) as Hfit.
+  destruct (oc_extend_wf cs oc_new oc_new_wf Hok) as (t & Ht & Hw & _ & Hpos & Hm);
+    [rewrite oc_new_mass; exact Hfit|]. specialize (Hpos Hne). rewrite oc_new_mass in Hm.
+  destruct (prune_until_terminates k t Hw) as (t' & Ht' & Hw' & Hb' & Hp'); [rewrite Hm; exact Hfit|].
+  specialize (Hp' Hpos).
   destruct (build_palette_ok t' Hw') as (pal & Hpal & Hlen).
   exists t, t', pal. split; [exact Ht|]. split; [exact Ht'|]. split; [exact Hpal|]. split; [lia|].
   rewrite Hlen. pose proof (wo_bound _ Hw'). lia.
